@@ -26,6 +26,7 @@ import (
 	"strings"
 
 	sdkmath "cosmossdk.io/math"
+	sdk "github.com/cosmos/cosmos-sdk/types"
 
 	"github.com/osmosis-labs/osmosis/osmomath"
 )
@@ -72,8 +73,15 @@ func (g *Gen) genInt(maxBits int, o *Out, tag string) *big.Int {
 		v = big.NewInt(1)
 	case 2:
 		v = big.NewInt(int64(g.Intn(1000000)))
-	case 3, 4: // 2^k + {-1,0,1}, k next to a bit-length boundary
-		k := intBoundaryK[g.Intn(len(intBoundaryK))] + g.Intn(5) - 2
+	case 3, 4: // 2^k + {-1,0,1}, k next to a bit-length boundary (those of this type: up to its own bound)
+		nb := 0
+		for nb < len(intBoundaryK) && intBoundaryK[nb] <= maxBits {
+			nb++
+		}
+		k := 1 + g.Intn(maxBits)
+		if nb > 0 {
+			k = intBoundaryK[g.Intn(nb)] + g.Intn(5) - 2
+		}
 		v = pow2(k)
 		v.Add(v, big.NewInt(int64(g.Intn(3)-1)))
 	case 5: // 10^k + {-1,0,1}
@@ -978,6 +986,40 @@ func divIntByU64Case(g *Gen, o *Out) {
 	}
 	round := []int{1, 2, 3, 1, 2, 3, 1, 2, 3, 2, 0, 4, -1, 7}[g.Intn(14)]
 	divIntByU64One(o, i, u, round)
+	if g.Intn(8) == 0 { // DivCoinAmtsByU64ToBigDec = the element-wise map, the first error wins (oracle only)
+		k := 1 + g.Intn(3)
+		coins := make([]sdk.Coin, k)
+		scales := make([]uint64, k)
+		for j := range coins {
+			amt := new(big.Int).Abs(g.genInt(200, o, "div.coin"))
+			coins[j] = sdk.Coin{Denom: fmt.Sprintf("d%d", j), Amount: osmomath.NewIntFromBigInt(amt)}
+			scales[j] = g.genU64(o)
+		}
+		scales[0] = u
+		var all []osmomath.BigDec
+		var aerr error
+		if !catch(func() { all, aerr = osmomath.DivCoinAmtsByU64ToBigDec(coins, scales, osmomath.RoundingDirection(round)) }) {
+			o.Fail("divCoinAmtsByU64:panic", fmt.Sprint(coins, scales, round))
+			return
+		}
+		o.Count("int.op.divCoinAmtsByU64")
+		for j := range coins {
+			one, err := osmomath.DivIntByU64ToBigDec(coins[j].Amount, scales[j], osmomath.RoundingDirection(round))
+			if err != nil {
+				if aerr == nil {
+					o.Fail("divCoinAmtsByU64:element-error-dropped", fmt.Sprint(coins, scales, round))
+				}
+				return
+			}
+			if aerr == nil && (len(all) != k || !all[j].Equal(one)) {
+				o.Fail("divCoinAmtsByU64:differs-from-elementwise", fmt.Sprint(coins, scales, round))
+				return
+			}
+		}
+		if aerr != nil {
+			o.Fail("divCoinAmtsByU64:spurious-error", fmt.Sprint(coins, scales, round))
+		}
+	}
 }
 
 func divIntByU64One(o *Out, i *big.Int, u uint64, round int) {
@@ -1058,7 +1100,50 @@ func divIntByU64One(o *Out, i *big.Int, u uint64, round int) {
 
 func convCase(g *Gen, o *Out) {
 	precs := []int64{0, 0, 0, 1, 6, 18, 35, 36, 37, 40, -1}
-	switch k := g.Intn(12); k {
+	switch k := g.Intn(14); k {
+	case 12: // BigDec predicates, comparisons, selection, formatting (oracle only: projections of Cmp / String)
+		a, b := g.genRaw(1144, o, "conv.cmp"), g.genRaw(1144, o, "conv.cmp")
+		if g.Intn(4) == 0 {
+			b = new(big.Int).Set(a)
+		}
+		x, y := bd(a), bd(b)
+		c, sg := a.Cmp(b), a.Sign()
+		if x.Equal(y) != (c == 0) || x.GT(y) != (c > 0) || x.GTE(y) != (c >= 0) || x.LT(y) != (c < 0) || x.LTE(y) != (c <= 0) ||
+			x.IsZero() != (sg == 0) || x.IsNegative() != (sg < 0) || x.IsPositive() != (sg > 0) || x.IsNil() {
+			o.Fail("bd.cmp:"+signClass(a, b), fmt.Sprint(a, b))
+		}
+		mn, mx := osmomath.MinBigDec(x, y).BigInt(), osmomath.MaxBigDec(x, y).BigInt()
+		if (c <= 0 && (mn.Cmp(a) != 0 || mx.Cmp(b) != 0)) || (c > 0 && (mn.Cmp(b) != 0 || mx.Cmp(a) != 0)) {
+			o.Fail("bd.minmax:"+signClass(a, b), fmt.Sprint(a, b))
+		}
+		if !osmomath.DecsEqual([]osmomath.BigDec{x, y}, []osmomath.BigDec{bd(a), bd(b)}) || osmomath.DecsEqual([]osmomath.BigDec{x}, []osmomath.BigDec{x, y}) ||
+			osmomath.DecsEqual([]osmomath.BigDec{x, y}, []osmomath.BigDec{x, bd(new(big.Int).Add(b, big.NewInt(1)))}) {
+			o.Fail("bd.decsEqual", fmt.Sprint(a, b))
+		}
+		if yv, err := x.MarshalYAML(); err != nil || yv.(string) != x.String() || fmt.Sprintf("%v", x) != x.String() {
+			o.Fail("bd.format:differs-from-string", a.String())
+		}
+		if x.BigInt().Cmp(a) != 0 || y.BigInt().Cmp(b) != 0 {
+			o.Fail("bd.cmp:operand-mutated", fmt.Sprint(a, b))
+		}
+		o.Count("int.op.bd.cmp")
+	case 13: // BigDecFromDec and its Mut / slice / coin-slice forms agree (x10^18, exact)
+		a, b := g.genRaw(315, o, "conv.fd"), new(big.Int).Abs(g.genRaw(315, o, "conv.fd"))
+		want := new(big.Int).Mul(a, p18)
+		x := sd(a)
+		if osmomath.BigDecFromDec(x).BigInt().Cmp(want) != 0 || x.BigInt().Cmp(a) != 0 {
+			o.Fail("fromDec:wrong-value-or-operand-mutated", a.String())
+		}
+		sl := osmomath.BigDecFromDecSlice([]osmomath.Dec{x, sd(b)})
+		cs := osmomath.BigDecFromDecCoinSlice([]sdk.DecCoin{{Denom: "a", Amount: sd(b)}})
+		if len(sl) != 2 || sl[0].BigInt().Cmp(want) != 0 || sl[1].BigInt().Cmp(new(big.Int).Mul(b, p18)) != 0 || x.BigInt().Cmp(a) != 0 ||
+			len(cs) != 1 || cs[0].BigInt().Cmp(new(big.Int).Mul(b, p18)) != 0 {
+			o.Fail("fromDecSlice:differs-from-fromDec", fmt.Sprint(a, b))
+		}
+		if osmomath.BigDecFromDecMut(sd(a)).BigInt().Cmp(want) != 0 {
+			o.Fail("fromDecMut:mut-differs", a.String())
+		}
+		o.Count("int.op.fromDecForms")
 	case 0, 1, 2: // NewBigDecFromBigInt(WithPrec) and the Mut forms: raw *big.Int of ANY size
 		i := g.genInt(1250, o, "conv.big")
 		prec := precs[g.Intn(len(precs))]
